@@ -101,7 +101,7 @@ var edsPorts = []int{80, 81, 8080, 9090, 8443}
 // edsAnswers: what the real EDS generator (endpoints.EndpointBuilder) answers to this proxy for the
 // cluster outbound|port||hostname of EVERY hostname of the mesh - also the ones outside its scope -
 // as "hostname:port=address,...".
-func (w *world) edsAnswers(p *model.Proxy) []string {
+func (w *world) edsAnswers(p *model.Proxy, subsets []string) []string {
 	hosts := map[string]bool{}
 	for i := range w.svcs {
 		hosts[w.svcs[i].hostname] = true
@@ -109,18 +109,40 @@ func (w *world) edsAnswers(p *model.Proxy) []string {
 	var out []string
 	for h := range hosts {
 		for _, port := range edsPorts {
-			name := model.BuildSubsetKey(model.TrafficDirectionOutbound, "", hostName(h), port)
-			b := endpoints.NewEndpointBuilder(name, p, w.ps)
-			cla := b.BuildClusterLoadAssignment(w.env.EndpointIndex)
-			var addrs []string
-			for _, l := range cla.GetEndpoints() {
-				for _, e := range l.GetLbEndpoints() {
-					addrs = append(addrs, e.GetEndpoint().GetAddress().GetSocketAddress().GetAddress())
+			for _, sub := range append([]string{""}, subsets...) {
+				name := model.BuildSubsetKey(model.TrafficDirectionOutbound, sub, hostName(h), port)
+				b := endpoints.NewEndpointBuilder(name, p, w.ps)
+				cla := b.BuildClusterLoadAssignment(w.env.EndpointIndex)
+				var addrs []string
+				for _, l := range cla.GetEndpoints() {
+					for _, e := range l.GetLbEndpoints() {
+						addrs = append(addrs, e.GetEndpoint().GetAddress().GetSocketAddress().GetAddress())
+					}
+				}
+				sort.Strings(addrs)
+				if len(addrs) > 0 {
+					key := fmt.Sprintf("%s:%d", h, port)
+					if sub != "" {
+						key += ":" + sub
+					}
+					out = append(out, key+"="+strings.Join(addrs, "+"))
 				}
 			}
-			sort.Strings(addrs)
-			if len(addrs) > 0 {
-				out = append(out, fmt.Sprintf("%s:%d=%s", h, port, strings.Join(addrs, "+")))
+		}
+	}
+	sort.Strings(out)
+	return out
+}
+
+// someSubsets: up to four subset names of the DestinationRules of the case (for the oracle's EDS questions).
+func (w *world) someSubsets() []string {
+	seen := map[string]bool{}
+	var out []string
+	for i := range w.drs {
+		for _, sn := range w.drs[i].subsets {
+			if !seen[sn.name] && len(out) < 4 {
+				seen[sn.name] = true
+				out = append(out, sn.name)
 			}
 		}
 	}
@@ -157,8 +179,17 @@ func (w *world) oracleEDS(p *model.Proxy, ns string) string {
 	addrKey := map[string][2]string{}
 	for _, k := range w.keys() {
 		addrKey[w.keyAddr(k[0], k[1])] = k
+		addrKey[labelledAddr(w.keyAddr(k[0], k[1]))] = k
 	}
-	for _, a := range w.edsAnswers(p) {
+	answers := w.edsAnswers(p, w.someSubsets())
+	plain := map[string]string{}
+	for _, a := range answers {
+		hp, addrs, _ := strings.Cut(a, "=")
+		if strings.Count(hp, ":") == 1 {
+			plain[hp] = addrs
+		}
+	}
+	for _, a := range answers {
 		hp, addrs, _ := strings.Cut(a, "=")
 		for _, addr := range strings.Split(addrs, "+") {
 			k, ok := addrKey[addr]
@@ -179,14 +210,48 @@ func (w *world) oracleEDS(p *model.Proxy, ns string) string {
 			}
 		}
 	}
+	// a subset only narrows an answer when a DestinationRule that declares it for that host is exported
+	// to the proxy's namespace (the subset of a rule the namespace cannot see shapes nothing)
+	for hp, all := range plain {
+		for _, sub := range w.someSubsets() {
+			got := ""
+			for _, a := range answers {
+				if k, addrs, _ := strings.Cut(a, "="); k == hp+":"+sub {
+					got = addrs
+				}
+			}
+			if got == all {
+				continue
+			}
+			cnt("eds-subset-narrows-answer")
+			h := hp[:strings.LastIndex(hp, ":")]
+			ok := false
+			for i := range w.drs {
+				d := &w.drs[i]
+				has := false
+				for _, sn := range d.subsets {
+					has = has || sn.name == sub
+				}
+				if has && covers(fqdn(d.ns, d.host), h) && (w.drVisibleDoc(d, ns) || !w.enhanced) {
+					ok = true
+				}
+			}
+			if !ok {
+				return "eds-subset-of-hidden-rule " + wire.Enc(hp+":"+sub) + " " + ns
+			}
+		}
+	}
 	return ""
 }
 
 // oracleRouter: the outbound clusters of a router proxy name only hostnames of services exported to
 // its namespace (on the PushContext as built: PILOT_FILTER_GATEWAY_CLUSTER_CONFIG as currently set).
 func (w *world) oracleRouter(ns string) string {
-	p := w.routerFor(ns)
-	for _, c := range w.outboundClusters(p) {
+	return w.oracleRouterClusters(ns, w.outboundClusters(w.routerFor(ns)))
+}
+
+func (w *world) oracleRouterClusters(ns string, clusters []string) string {
+	for _, c := range clusters {
 		c, _, _ = strings.Cut(c, "@")
 		f := strings.Split(c, "|")
 		if len(f) != 4 {
@@ -200,6 +265,104 @@ func (w *world) oracleRouter(ns string) string {
 		}
 		if !vis {
 			return "router-cluster-for-hidden-service " + wire.Enc(c) + " " + ns
+		}
+	}
+	return ""
+}
+
+// oracleRouterRoutes: the LDS and RDS of a Router proxy are really built (Gateway gw1 of every namespace whose
+// VirtualServices name it, selector istio=ingressgateway) and checked against the documented rules: every
+// virtual host and every destination cluster of the Router's routes comes from a VirtualService that is bound
+// to one of the Gateways the Router serves AND exported to the Router's namespace (delegates: exported to the
+// root's namespace); the destination's service, when the mesh has it, need not be visible (a route to a
+// cluster CDS does not deliver blackholes) - the cluster side is oracleRouter.
+func (w *world) oracleRouterRoutes(ns string) string {
+	p := w.routerFor(ns)
+	ls := configGen.BuildListeners(p, w.ps)
+	names := map[string]bool{}
+	for _, rn := range core.ExtractRoutesFromListeners(ls) {
+		names[rn] = true
+	}
+	var rnames []string
+	for n := range names {
+		rnames = append(rnames, n)
+	}
+	sort.Strings(rnames)
+	if len(rnames) == 0 {
+		return ""
+	}
+	cnt("router-lds-with-http-routes")
+	// the VirtualServices that may shape this Router's routes, by the documented rules
+	var allowed []*vsSpec
+	for i := range w.vss {
+		v := &w.vss[i]
+		if len(v.hosts) == 0 || !w.vsVisibleDoc(v, ns) {
+			continue
+		}
+		bound := false
+		for _, g := range v.gateways {
+			bound = bound || g != "mesh"
+		}
+		if bound {
+			allowed = append(allowed, v)
+		}
+	}
+	raw, _ := configGen.BuildHTTPRoutes(p, &model.PushRequest{Push: w.ps}, rnames)
+	for _, r := range raw {
+		rc := &route.RouteConfiguration{}
+		if err := r.Resource.UnmarshalTo(rc); err != nil {
+			panic(err)
+		}
+		for _, vh := range rc.VirtualHosts {
+			if vh.Name == "blackhole:80" || len(vh.Routes) == 0 {
+				continue
+			}
+			cnt("router-rds-virtual-host")
+			for _, d := range vh.Domains {
+				if i := strings.LastIndex(d, ":"); i > 0 {
+					d = d[:i]
+				}
+				ok := false
+				for _, v := range allowed {
+					for _, h := range vsHostsDoc(v) {
+						ok = ok || covers(h, d) || covers(d, h)
+					}
+				}
+				if !ok {
+					return "router-vhost-without-exported-virtualservice " + wire.Enc(rc.Name+">"+vh.Name+">"+d) + " " + ns
+				}
+			}
+			for _, rt := range vh.Routes {
+				var clusters []string
+				if c := rt.GetRoute().GetCluster(); c != "" {
+					clusters = append(clusters, c)
+				}
+				for _, wc := range rt.GetRoute().GetWeightedClusters().GetClusters() {
+					clusters = append(clusters, wc.Name)
+				}
+				for _, mp := range rt.GetRoute().GetRequestMirrorPolicies() {
+					if mp.Cluster != "" {
+						clusters = append(clusters, mp.Cluster)
+					}
+				}
+				for _, c := range clusters {
+					f := strings.Split(c, "|")
+					if len(f) != 4 {
+						continue // BlackHoleCluster and the like
+					}
+					ok := false
+					for _, v := range allowed {
+						for _, h := range w.httpRoutesDoc(v) {
+							for _, d := range h.dests {
+								ok = ok || d.host == f[3]
+							}
+						}
+					}
+					if !ok {
+						return "router-route-to-destination-of-hidden-virtualservice " + wire.Enc(rc.Name+">"+vh.Name+">"+c) + " " + ns
+					}
+				}
+			}
 		}
 	}
 	return ""
@@ -279,14 +442,62 @@ func (w *world) oracleListeners(p *model.Proxy, ns string, exp *sidecarSpec) str
 	return ""
 }
 
+// filteredRouterClusters: the CDS of a Router under PILOT_FILTER_GATEWAY_CLUSTER_CONFIG (and, if scoped,
+// PILOT_SCOPE_GATEWAY_TO_NAMESPACE), from a PushContext built afresh under those flags over the current
+// objects of the case (the gateway destination index only exists under the flag).
+func (w *world) filteredRouterClusters(ns string, scoped bool) []string {
+	defer func(v bool) { features.FilterGatewayClusterConfig = v }(features.FilterGatewayClusterConfig)
+	defer func(v bool) { features.ScopeGatewayToNamespace = v }(features.ScopeGatewayToNamespace)
+	features.FilterGatewayClusterConfig = true
+	features.ScopeGatewayToNamespace = scoped
+	w2 := &world{unified: w.unified, pickBest: w.pickBest, enhanced: w.enhanced, lazy: w.lazy, concurrent: w.concurrent,
+		mesh: w.mesh, svcs: w.svcs, vss: w.vss, drs: w.drs, scs: w.scs}
+	defer w2.close()
+	w2.build()
+	return w2.outboundClusters(w2.routerFor(ns))
+}
+
 func (w *world) queryXDS(t []string) string {
+	if t[0] == "xdsgwf" {
+		return "C=" + wire.EncList(w.filteredRouterClusters(wire.Dec(t[1]), t[2] == "1"))
+	}
 	if t[0] == "xdsgw" {
 		return "C=" + wire.EncList(w.outboundClusters(w.routerFor(wire.Dec(t[1]))))
 	}
 	lbl, _ := decLabels(t[2])
 	p := w.proxyFor(wire.Dec(t[1]), lbl)
 	if t[0] == "eds" {
-		return "E=" + wire.EncList(w.edsAnswers(p))
+		var subs []string
+		if len(t) == 4 {
+			subs = decItems(t[3], ",")
+		}
+		return "E=" + wire.EncList(w.edsAnswers(p, subs))
+	}
+	if t[0] == "lds" { // the outbound listener names (LDS)
+		var names []string
+		for _, l := range configGen.BuildListeners(p, w.ps) {
+			if l.Name != "virtualInbound" && l.Name != "virtualOutbound" {
+				names = append(names, l.Name)
+			}
+		}
+		sort.Strings(names)
+		return "L=" + wire.EncList(names)
+	}
+	if t[0] == "rds" { // the virtual host names of the port-named route configurations (RDS)
+		var out []string
+		for _, it := range w.routeVirtualHosts(p, false) {
+			rc, vh, _ := strings.Cut(it, ">")
+			port, err := strconv.Atoi(rc)
+			if err != nil || vh == "allow_any" || vh == "block_all" {
+				continue
+			}
+			if e := p.SidecarScope.GetEgressListenerForRDS(port, rc); e != nil && e.IstioListener != nil &&
+				e.IstioListener.Port != nil && e.IstioListener.Port.Protocol == "HTTP_PROXY" {
+				continue
+			}
+			out = append(out, it)
+		}
+		return "R=" + wire.EncList(out)
 	}
 	if t[0] == "routes" { // debugging aid, not generated
 		return wire.EncList(w.routeVirtualHosts(p, true))
@@ -348,7 +559,7 @@ func (w *world) oracleXDS(ns string, lbl map[string]string) string {
 			if owner == nil {
 				return "cluster-policy-of-unknown-rule " + wire.Enc(c) + "@" + mc
 			}
-			if owner.host != f[3] && !covers(owner.host, f[3]) {
+			if oh := fqdn(owner.ns, owner.host); oh != f[3] && !covers(oh, f[3]) {
 				return "cluster-policy-of-rule-for-another-host " + wire.Enc(c) + "@" + mc
 			}
 			if !w.drVisibleDoc(owner, ns) {
@@ -405,7 +616,7 @@ func (w *world) oracleXDS(ns string, lbl map[string]string) string {
 	for _, l := range sc.EgressListeners {
 		for _, c := range l.VirtualServices() {
 			if v := w.vsByKey(c.Namespace + "/" + c.Name); v != nil {
-				for _, h := range v.hosts {
+				for _, h := range vsHostsDoc(v) {
 					vsHosts[h] = true
 				}
 			}
@@ -481,7 +692,7 @@ func (w *world) viewOf(ns string, ls []*model.IstioEgressListenerWrapper, docHos
 		for i := range w.vss {
 			vs := &w.vss[i]
 			if len(vs.hosts) > 0 && vsOnMeshDoc(vs) && w.vsVisibleDoc(vs, ns) && vsImportedDoc(ns, hosts, vs) {
-				for _, h := range vs.hosts {
+				for _, h := range vsHostsDoc(vs) {
 					v.vs[h] = true
 				}
 				for h := range w.vsDestHostsFor(vs, ns) {
